@@ -497,6 +497,7 @@ func runC04(p *core.Prog, r *core.Report) {
 	r.MinInstances("C04.R2", 5)
 	r.MinInstances("C04.R3", 4)
 	checkTier1StreamBounds(p, r, "C04.R6")
+	r.Guard("C04.R1", "walker-protocol", "one download at a time, every segment once", func() { checkWalkerProtocol(p, r, "C04.R1") })
 	r.MinInstances("C04.R4", 7)
 	r.MinInstances("C04.R5", 8)
 }
